@@ -24,6 +24,8 @@
  Defects (found in the pinned tree; a "fix:" commit repairs each one that is not listed as known):
    "ws-cursor-from-start"    MessageCursor::read copies from the start of the message instead of from its index
    "ws-read-overwrites"      the read loop hands the whole buffer to every message instead of the unread rest
+   "ws-error-drops-read-bytes" (introduced by a seeded change, not in the pinned tree) a read that has copied payload bytes and then meets the
+                             peer's close returns the error at once: the bytes never reach the engine
    "ws-blocked-after-queue"  tungstenite queued the frame and the flush would block: the driver sees would-block and
                              sends the same bytes again
    "slot-never-resolved"     threaded client: a command dropped unprocessed (loop gone) leaves its result slot empty
@@ -52,16 +54,17 @@ VARIABLES produced,      \* number of bytes the engine has produced (they are 1.
           chan,          \* commands not yet taken: operation ids
           res,           \* operation id -> number of results delivered
           nops,
-          sizes          \* sizes of the chunks / messages the peer has sent (observation, for export)
+          sizes,         \* sizes of the chunks / messages the peer has sent (observation, for export)
+          pclose         \* the peer's close: "no" | "sent" (it follows everything the peer has sent, ws: as the marker <<0>> in `peer`) | "seen" (a read reported it)
 
-vars == <<produced, outbuf, cursor, pwc, wire, queued, up, peer, sent, msg, idx, fed, loop, chan, res, nops, sizes>>
+vars == <<produced, outbuf, cursor, pwc, wire, queued, up, peer, sent, msg, idx, fed, loop, chan, res, nops, sizes, pclose>>
 
 Ids(a, b) == [i \in 1..(b - a + 1) |-> a + i - 1]
 Min2(a, b) == IF a <= b THEN a ELSE b
 
 Init == /\ produced = 0 /\ outbuf = <<>> /\ cursor = 0 /\ pwc = FALSE /\ wire = <<>> /\ queued = <<>> /\ up = TRUE
         /\ peer = <<>> /\ sent = 0 /\ msg = <<>> /\ idx = 0 /\ fed = <<>>
-        /\ loop = "run" /\ chan = <<>> /\ res = <<>> /\ nops = 0 /\ sizes = <<>>
+        /\ loop = "run" /\ chan = <<>> /\ res = <<>> /\ nops = 0 /\ sizes = <<>> /\ pclose = "no"
 
 ----------------------------------------------------------------------------------------------------
 \* write path
@@ -72,19 +75,19 @@ Service ==
           /\ outbuf' = outbuf \o Ids(produced + 1, produced + k)
           /\ produced' = produced + k
     /\ pwc' = TRUE
-    /\ UNCHANGED <<cursor, wire, queued, up, peer, sent, msg, idx, fed, loop, chan, res, nops, sizes>>
+    /\ UNCHANGED <<cursor, wire, queued, up, peer, sent, msg, idx, fed, loop, chan, res, nops, sizes, pclose>>
 
 Advance(n) ==      \* bytes_written = n
     IF cursor + n = Len(outbuf)
     THEN /\ outbuf' = <<>> /\ cursor' = 0 /\ pwc' = FALSE           \* clear, flush, handle_write_completion
-    ELSE /\ cursor' = cursor + n /\ UNCHANGED <<outbuf, pwc, sizes>>
+    ELSE /\ cursor' = cursor + n /\ UNCHANGED <<outbuf, pwc, sizes, pclose>>
 
 WritePlain ==
     /\ Adapter = "plain" /\ loop = "run" /\ up /\ cursor < Len(outbuf)
     /\ \E n \in 1..(Len(outbuf) - cursor) :
           /\ wire' = wire \o SubSeq(outbuf, cursor + 1, cursor + n)
           /\ Advance(n)
-    /\ UNCHANGED <<produced, queued, up, peer, sent, msg, idx, fed, loop, chan, res, nops, sizes>>
+    /\ UNCHANGED <<produced, queued, up, peer, sent, msg, idx, fed, loop, chan, res, nops, sizes, pclose>>
 
 \* WebsocketStreamWrapper::write: one binary message with everything that is left
 WriteWs ==
@@ -92,39 +95,53 @@ WriteWs ==
     /\ LET rest == SubSeq(outbuf, cursor + 1, Len(outbuf)) IN
        \/ /\ wire' = wire \o rest /\ Advance(Len(rest)) /\ UNCHANGED queued                       \* sent
        \/ /\ "ws-blocked-after-queue" \in Defects                                                  \* queued, reported as would-block
-          /\ wire' = wire \o rest /\ UNCHANGED <<outbuf, cursor, pwc, queued, sizes>>
+          /\ wire' = wire \o rest /\ UNCHANGED <<outbuf, cursor, pwc, queued, sizes, pclose>>
        \/ /\ "ws-blocked-after-queue" \notin Defects                                               \* repaired: queued frame counts as written
           /\ wire' = wire \o rest /\ Advance(Len(rest)) /\ UNCHANGED queued
-    /\ UNCHANGED <<produced, up, peer, sent, msg, idx, fed, loop, chan, res, nops, sizes>>
+    /\ UNCHANGED <<produced, up, peer, sent, msg, idx, fed, loop, chan, res, nops, sizes, pclose>>
 
 WriteFails ==
     /\ loop = "run" /\ up /\ cursor < Len(outbuf)
     /\ up' = FALSE
-    /\ UNCHANGED <<produced, outbuf, cursor, pwc, wire, queued, peer, sent, msg, idx, fed, loop, chan, res, nops, sizes>>
+    /\ UNCHANGED <<produced, outbuf, cursor, pwc, wire, queued, peer, sent, msg, idx, fed, loop, chan, res, nops, sizes, pclose>>
 
 ----------------------------------------------------------------------------------------------------
 \* read path
 
 PeerSends ==
-    /\ up /\ sent < MaxIn
+    /\ up /\ sent < MaxIn /\ pclose = "no"
     /\ \E k \in 1..(MaxIn - sent) :
           /\ peer' = IF Adapter = "ws" THEN Append(peer, Ids(sent + 1, sent + k))
                      ELSE <<(IF peer = <<>> THEN <<>> ELSE peer[1]) \o Ids(sent + 1, sent + k)>>
           /\ sent' = sent + k
           /\ sizes' = Append(sizes, k)
-    /\ UNCHANGED <<produced, outbuf, cursor, pwc, wire, queued, up, msg, idx, fed, loop, chan, res, nops>>
+    /\ UNCHANGED <<produced, outbuf, cursor, pwc, wire, queued, up, msg, idx, fed, loop, chan, res, nops, pclose>>
+
+\* the peer closes the connection after what it has sent (ws: a Close frame behind the queued messages)
+CloseMark == <<0>>
+PeerCloses ==
+    /\ Adapter = "ws" /\ up /\ pclose = "no"
+    /\ peer' = Append(peer, CloseMark)
+    /\ pclose' = "sent"
+    /\ UNCHANGED <<produced, outbuf, cursor, pwc, wire, queued, up, sent, msg, idx, fed, loop, chan, res, nops, sizes>>
 
 ReadPlain ==
     /\ Adapter = "plain" /\ loop = "run" /\ up /\ peer # <<>> /\ peer[1] # <<>>
     /\ \E n \in 1..Min2(BufSize, Len(peer[1])) :
           /\ fed' = fed \o SubSeq(peer[1], 1, n)
           /\ peer' = <<SubSeq(peer[1], n + 1, Len(peer[1]))>>
-    /\ UNCHANGED <<produced, outbuf, cursor, pwc, wire, queued, up, sent, msg, idx, loop, chan, res, nops, sizes>>
+    /\ UNCHANGED <<produced, outbuf, cursor, pwc, wire, queued, up, sent, msg, idx, loop, chan, res, nops, sizes, pclose>>
 
 \* WebsocketStreamWrapper::read(buf) with |buf| = BufSize.  R == [buf, n (bytes_read), msg, idx, peer]
 RECURSIVE WsReadLoop(_)
 WsReadLoop(R) ==
     IF R.n >= BufSize THEN R
+    ELSE IF R.msg = <<>> /\ R.peer # <<>> /\ Head(R.peer) = CloseMark THEN
+         \* tungstenite reports the close (an error that is not would-block).  Bytes already copied in this call are returned
+         \* first and the error is kept for the next call (final_error); the defect returns the error at once and drops them
+         IF "ws-error-drops-read-bytes" \in Defects THEN [R EXCEPT !.n = 0, !.err = TRUE, !.peer = Tail(R.peer)]
+         ELSE IF R.n > 0 THEN R
+         ELSE [R EXCEPT !.err = TRUE, !.peer = Tail(R.peer)]
     ELSE LET R1 == IF R.msg = <<>>
                    THEN (IF R.peer = <<>> THEN R ELSE [R EXCEPT !.msg = Head(R.peer), !.idx = 0, !.peer = Tail(R.peer)])
                    ELSE R
@@ -139,11 +156,13 @@ WsReadLoop(R) ==
 
 ReadWs ==
     /\ Adapter = "ws" /\ loop = "run" /\ up /\ (msg # <<>> \/ peer # <<>>)
-    /\ LET R == WsReadLoop([buf |-> [i \in 1..BufSize |-> 0], n |-> 0, msg |-> msg, idx |-> idx, peer |-> peer])
-       IN /\ R.n > 0
+    /\ LET R == WsReadLoop([buf |-> [i \in 1..BufSize |-> 0], n |-> 0, msg |-> msg, idx |-> idx, peer |-> peer, err |-> FALSE])
+       IN /\ R.n > 0 \/ R.err
           /\ fed' = fed \o SubSeq(R.buf, 1, R.n)
           /\ msg' = R.msg /\ idx' = R.idx /\ peer' = R.peer
-    /\ UNCHANGED <<produced, outbuf, cursor, pwc, wire, queued, up, sent, loop, chan, res, nops, sizes>>
+          /\ up' = IF R.err THEN FALSE ELSE up                       \* the driver ends the connection on a read error
+          /\ pclose' = IF R.err THEN "seen" ELSE pclose
+    /\ UNCHANGED <<produced, outbuf, cursor, pwc, wire, queued, sent, loop, chan, res, nops, sizes>>
 
 ----------------------------------------------------------------------------------------------------
 \* operations and their results
@@ -156,14 +175,14 @@ Submit ==
             /\ res' = [o \in 1..(nops + 1) |-> IF o <= nops THEN res[o] ELSE 0]
        ELSE /\ chan' = chan                  \* the send fails: the submit call itself resolves the operation with an error
             /\ res' = [o \in 1..(nops + 1) |-> IF o <= nops THEN res[o] ELSE 1]
-    /\ UNCHANGED <<produced, outbuf, cursor, pwc, wire, queued, up, peer, sent, msg, idx, fed, loop, sizes>>
+    /\ UNCHANGED <<produced, outbuf, cursor, pwc, wire, queued, up, peer, sent, msg, idx, fed, loop, sizes, pclose>>
 
 \* the loop takes a command: the engine accepts the operation and will complete it (here: at once) or fail it
 TakeCommand ==
     /\ loop = "run" /\ chan # <<>>
     /\ res' = [res EXCEPT ![Head(chan)] = @ + 1]
     /\ chan' = Tail(chan)
-    /\ UNCHANGED <<produced, outbuf, cursor, pwc, wire, queued, up, peer, sent, msg, idx, fed, loop, nops, sizes>>
+    /\ UNCHANGED <<produced, outbuf, cursor, pwc, wire, queued, up, peer, sent, msg, idx, fed, loop, nops, sizes, pclose>>
 
 \* close: the loop exits; commands still in the channel are dropped with their handlers
 LoopExits ==
@@ -172,16 +191,18 @@ LoopExits ==
     /\ res' = IF Driver = "threaded" /\ "slot-never-resolved" \in Defects THEN res
               ELSE [o \in DOMAIN res |-> IF \E i \in 1..Len(chan) : chan[i] = o THEN res[o] + 1 ELSE res[o]]    \* dropped sender / guard resolves with an error
     /\ chan' = <<>>
-    /\ UNCHANGED <<produced, outbuf, cursor, pwc, wire, queued, up, peer, sent, msg, idx, fed, nops, sizes>>
+    /\ UNCHANGED <<produced, outbuf, cursor, pwc, wire, queued, up, peer, sent, msg, idx, fed, nops, sizes, pclose>>
 
 ----------------------------------------------------------------------------------------------------
-Next == Service \/ WritePlain \/ WriteWs \/ WriteFails \/ PeerSends \/ ReadPlain \/ ReadWs \/ Submit \/ TakeCommand \/ LoopExits
+Next == Service \/ WritePlain \/ WriteWs \/ WriteFails \/ PeerSends \/ PeerCloses \/ ReadPlain \/ ReadWs \/ Submit \/ TakeCommand \/ LoopExits
 Spec == Init /\ [][Next]_vars /\ WF_vars(TakeCommand)
 
 \* C13: the transport is handed exactly the bytes the engine produced, in order, without loss or duplication
 WriteFaithful == wire = Ids(1, Len(wire)) /\ Len(wire) <= produced
 \* C13: received bytes are fed to the engine in order (for WebSockets: the concatenation of the binary payloads)
 ReadFaithful == fed = Ids(1, Len(fed)) /\ Len(fed) <= sent
+\* C13: ... and without loss: when a read reports the peer's close, everything the peer sent before it has been fed
+ReadComplete == pclose = "seen" => fed = Ids(1, sent)
 \* C13: no operation yields two results ...
 AtMostOneResult == \A o \in DOMAIN res : res[o] <= 1
 \* ... and once the loop is gone every operation has one
